@@ -159,6 +159,7 @@ long v_dec(const char *s)
 #ifndef VL_NO_ATOL
 long atol(const char *s) { return v_dec(s); }
 #endif
+long long atoll(const char *s) { return (long long)v_dec(s); }   /* LP64: long long == long */
 int atoi(const char *s) { return (int)v_dec(s); }     /* glibc: (int) strtol(s, NULL, 10) */
 
 /* ---------------------------------------------------------------------- */
